@@ -164,7 +164,7 @@ theorem noteEvent_raises (k s ev) : Raises (noteEvent k s ev) notExpr := by
   unfold noteEvent
   raises_walk [logEntry_raises _]
 
-theorem restageRetry_raises (k idx) : Raises (restageRetry k idx) notExpr := by
+theorem restageRetry_raises (k idx o) : Raises (restageRetry k idx o) notExpr := by
   unfold restageRetry
   raises_walk []
 
@@ -186,7 +186,7 @@ theorem updateTaskStateAux_raises (fuel k ev) : Raises (updateTaskStateAux E fue
   | zero => unfold updateTaskStateAux; exact Raises.throw (by intro hc; cases hc)
   | succ n ih =>
     unfold updateTaskStateAux
-    raises_walk [ih _ _, ensureRecord_raises E _ _ _ _, noteEvent_raises _ _ _, restageRetry_raises _ _,
+    raises_walk [ih _ _, ensureRecord_raises E _ _ _ _, noteEvent_raises _ _ _, restageRetry_raises _ _ _,
       completedRetryDecision_raises E _ _ _ _ _, evalTransitions_raises E _ _ _ _, markTermIfCompleted_raises _]
 
 /-- **C11**: whatever the evaluator does — retry condition/count/delay, transition conditions and
